@@ -17,6 +17,9 @@ Definition op_p : P op :=
   else if tag =? 2 then l <- num ;; ret (OAddCL l)
   else if tag =? 3 then l <- num ;; ret (OAddSL l)
   else if tag =? 12 then ret OAck
+  else if tag =? 13 then rs <- many num ;; w <- num ;; ret (OBuild rs w)
+  else if tag =? 14 then id <- num ;; ret (OExtended id)
+  else if tag =? 15 then ret OBuildErr
   else
     a <- num ;; b <- num ;;
     match tag with
